@@ -147,6 +147,7 @@ def _is_one(row):
 def run(ck):
     ck.level = "model_checking"
     ck.assumptions += [
+        "derived units: rational powers / quotients of la, lb, ta (exponents -1, -1/3, 1/5, 1/3, 1/2, 2/3, 4/3, 3/2, 2; L/T, T/L, L*T), built by unit algebra, parsed from their string, or left behind by np.cbrt / np.sqrt / ** / 1/x / x/y on quantities",
         "model alphabet: units la(1) lb(1024) ta ma nq(1/4) in a custom registry + real dimensionless/percent/radian/K/R/degC/degF/delta_degC/delta_degF/C/statC; operand values 3, [3, 5/2] (left) and 2, [2, 5] (right), zeros",
         "operand kinds: quantity, array, zero-filled unyt array, (2,1) column, bare number/ndarray/list, bare zero number/ndarray/list, list of quantities (one unit / two dimensions); value classes as class ids: tiny 1e-20, denormal 5e-324, -0.0 (zero), NaN, inf, tiny/mixed/float32/list/NaN-inf bare sequences, tiny unit-carrying quantity/array",
         "floats are snapped to rationals with denominator <= 1e5 when within rel 1e-12 (exact on dyadic units); opaque values (hypot, remainder, arctan2, products) are not compared",
@@ -193,6 +194,8 @@ def run(ck):
     missing = [f for f in arr_all if f not in arr_fns]
     units = ck.q(units_q, units_t)
     dl_units = ["pc", "nq", "lr"]  # scaled dimensionless units: percent, 1/4, the ratio lb/la (dimension 1, NOT the null unit)
+    der_q = ["la^1/3", "la^33/100", "la^4/3", "la^2/3", "la^1/2", "la^2/1", "la^-1/1", "la^1/1.ta^-1/1", "la^-1/1.ta^1/1"]
+    der_t = der_q + ["la^-1/3", "la^1/5", "la^3/2", "la^1/1.ta^1/1", "la^1/2.ta^-1/1", "la^1/3.ta^1/1", "la^0/1.ta^-1/1", "la^2/1.ta^-1/1", "lb^1/2", "lb^3/2", "lb^1/5", "lb^-1/1"]
     arr_forms = ["call", "kw", "kwall", "out", "kwout", "lo", "hi", "kwlo", "kwhi", "alias", "aliaslo", "aliashi", "aliasout", "method", "methodkw", "methodlo", "methodhi"]
     # which value slots have alias keyword names is a fact about the NumPy at hand (numpy >= 2.1: np.clip(min=, max=))
     alias = ck.pmap("impl_c01", "alias_ops", [{}], nproc=1)[0]
@@ -212,6 +215,13 @@ def run(ck):
         "UfOps": _set(tree_ops),
         "Forms": _set(["call", "outer", "operator", "iop", "out", "at", "reduce_initial"]),
         "ArrFns": _set(arr_fns),
+        # derived units (rational powers / quotients of la, lb, ta; Ufunc.tla DTable): dimensions that differ only in the
+        # value of an exponent.  quick: thirds, a half, a square, an inverse, L/T and T/L; thorough: the whole grid
+        "DerUnits": _set(ck.q(der_q, der_t)),
+        "DHists": _set(ck.q(["computed"], ["none", "computed"])),
+        "DArrFns": _set(ck.q(["concatenate", "where", "clip", "insert", "putmask", "isclose", "searchsorted", "array_equal", "linspace", "union1d"], arr_fns)),
+        # outer / out= forms of ufuncs the property says nothing about (P vacuous, transcription only): thorough tier
+        "DepthForms": _set(ck.q([], ["outer", "out"])),
     }
     table = _table(ck, data)
     tpath = ck.write_json("table_mc.json", table)
@@ -230,7 +240,7 @@ def run(ck):
     def mc_table():
         # quick: each dimension against its cyclic successors at two strides; thorough: all ordered pairs
         cfg = "CONSTANTS\n  TableUnits <- MCTable\n" + f"  Strides = {ck.q('{1, 7}', '{}')}\n  AllPairs = {ck.q('FALSE', 'TRUE')}\n  XStride = 6\n"
-        cfg += "".join(f"  {k} = {{}}\n" for k in ("Units", "ConvUnits", "UKinds0", "UKinds1", "Forms", "Fams", "SpUnits", "Hists", "HUnits", "DlUnits"))
+        cfg += "".join(f"  {k} = {{}}\n" for k in ("Units", "ConvUnits", "UKinds0", "UKinds1", "Forms", "Fams", "SpUnits", "Hists", "HUnits", "DlUnits", "DerUnits", "DHists", "DArrFns", "DepthForms"))
         cfg += f"  ArrForms = {_set(arr_forms)}\n  AliasOps = {_set(alias)}\n"
         cfg += f"  ArrFns = {_set(arr_fns)}\n  UfOps = {_set(tree_ops)}\nINIT Init\nNEXT TNextAll\nINVARIANT Export\nCHECK_DEADLOCK FALSE\n"
         open(ck.spec + "/MC_C01_table_run.cfg", "w").write(cfg)
@@ -245,7 +255,7 @@ def run(ck):
 
     # independent stages run concurrently (TLC instances, replays, trace-validation chunks, the suite recording);
     # every verdict is recorded in the main thread in a fixed order, so the outcome does not depend on scheduling
-    fam_groups = (["ufunc"], ["arrfn", "setitem", "conv", "unitop"], ["hist"])
+    fam_groups = (["ufunc"], ["arrfn", "setitem", "conv", "unitop"], ["hist", "der"])
     with cf.ThreadPoolExecutor(max_workers=max(2, NCPU)) as pool:
         f_suite = pool.submit(suite.record, ck)
         f_mc = [pool.submit(mc_matrix, fams) for fams in fam_groups]
@@ -274,6 +284,10 @@ def run(ck):
         for fam in ("setitem", "arrfn", "ufunc", "conv"):
             if not any(c["fam"] == fam and (c["n0"] in dl_units or c["n1"] in dl_units) for c in cases):
                 raise MachineryFailure(f"no scaled-dimensionless case in family {fam}")
+        der_set = set(ck.q(der_q, der_t))
+        for fam in ("ufunc", "arrfn", "setitem", "conv", "unitop"):
+            if not any(c["fam"] == fam and (c["n0"] in der_set or c["n1"] in der_set) for c in cases):
+                raise MachineryFailure(f"no derived-unit case in family {fam}")
         tcases = [r["c"] for r in f_tab.result()[1]] if f_tab else []
         f_obs = pool.submit(ck.pmap, "impl_c01", "observe", cases, None, 900, {})
         f_tobs = pool.submit(ck.pmap, "impl_c01", "observe", tcases, max(1, NCPU // 2), 900, {"table": table}) if tcases else None
@@ -289,9 +303,10 @@ def run(ck):
     ck.sample({"case": cases[len(cases) // 3]})
     ck.sample({"case": cases[(2 * len(cases)) // 3]})
     ck.sample({"history_case": next(c for c in cases if c.get("h", "none") != "none")})
+    ck.sample({"derived_unit_case": next(c for c in cases if c["n0"] in der_set and c["n1"] in der_set and c["n0"] != c["n1"])})
     by_fam = {}
     for c in cases:
-        k = c["fam"] if c.get("h", "none") == "none" else "history:" + c["fam"]
+        k = ("derived:" if c["n0"] in der_set or c["n1"] in der_set else "") + (c["fam"] if c.get("h", "none") in ("none", "computed") else "history:" + c["fam"])
         by_fam[k] = by_fam.get(k, 0) + 1
     ck.cov["cases_by_family"] = by_fam
     if tcases:
